@@ -59,10 +59,15 @@ def _worker_task_inner(task):
         return mod.run(S, spec)
 
     def on_path(ctx, res):
-        if res["status"] in ("ok", "violation") and len(samples) < 2 and ctx.model is not None:
+        # keep the first path of the task and the one with the most decisions (the deepest case): they are re-run on the real code
+        if res["status"] in ("ok", "violation") and ctx.model is not None and (len(samples) < 2 or res["decisions"] > samples[-1]["decisions"]):
             try:
                 model = dict(ctx.ensure_model())
-                samples.append({"job": job_index, "model": model, "status": res["status"], "value": res.get("value") if res["status"] == "ok" else [res["prop"], res["kind"]], "obs": plain(ctx.S.observations, model)})
+                smp = {"job": job_index, "model": model, "decisions": res["decisions"], "status": res["status"], "value": res.get("value") if res["status"] == "ok" else [res["prop"], res["kind"]], "obs": plain(ctx.S.observations, model)}
+                if len(samples) < 2:
+                    samples.append(smp)
+                else:
+                    samples[-1] = smp
             except BaseException:  # pylint: disable=broad-except
                 pass
 
@@ -427,8 +432,8 @@ def finish(res, max_replays_per_kind=3):
     # ---- 5. evidence
     total = res["total"]
     ev_samples = []
-    for s in chosen[:6]:
-        ev_samples.append({"job": mod.describe(specs[s["job"]]) if hasattr(mod, "describe") else str(specs[s["job"]]), "model": {k: v for k, v in s["model"].items() if "!" not in k}, "outcome": s["value"], "observed": s["obs"]})
+    for s in sorted(chosen, key=lambda x: -x.get("decisions", 0))[:6]:
+        ev_samples.append({"job": mod.describe(specs[s["job"]]) if hasattr(mod, "describe") else str(specs[s["job"]]), "model": {k: v for k, v in s["model"].items() if "!" not in k}, "branch_decisions": s.get("decisions"), "outcome": s["value"], "observed": s["obs"]})
     nontrivial = sum(st.status.get("ok", 0) + st.status.get("violation", 0) for st in states)
     evidence = {
         "property_id": prop,
